@@ -214,8 +214,10 @@ fn jaeger_image(r: &SpanRecord) -> JSpan {
 
 struct Jaeger {
     sink: UdpSink,
-    reporter: JaegerReporter,
+    reporter: Arc<Mutex<JaegerReporter>>,
     drops0: Option<u64>,
+    /// a report() call did not return: the reporter is unusable from here on
+    stuck: bool,
 }
 
 impl Jaeger {
@@ -223,15 +225,25 @@ impl Jaeger {
         let sink = UdpSink::new();
         let reporter = JaegerReporter::new(format!("127.0.0.1:{}", sink.port).parse().unwrap(), "svc-é").expect("jaeger reporter");
         let drops0 = udp_drops(sink.port);
-        Jaeger { sink, reporter, drops0 }
+        Jaeger { sink, reporter: Arc::new(Mutex::new(reporter)), drops0, stuck: false }
     }
 
     /// Reports the batch; returns the datagrams (sizes) and the decoded spans in order.
     fn send(&mut self, batch: &[SpanRecord], deadline: Duration) -> Result<(Vec<usize>, Vec<JSpan>), String> {
-        let t0 = Instant::now();
-        self.reporter.report(batch.to_vec());
-        if t0.elapsed() > deadline {
-            return Err(format!("VIOLATION:report() took {:?}", t0.elapsed()));
+        if self.stuck {
+            return Err("an earlier report() call never returned".into());
+        }
+        // report() runs on a helper thread so that a call that never returns is noticed
+        let (tx, rx) = mpsc::channel();
+        let rep = self.reporter.clone();
+        let b = batch.to_vec();
+        std::thread::spawn(move || {
+            rep.lock().unwrap().report(b);
+            let _ = tx.send(());
+        });
+        if rx.recv_timeout(deadline).is_err() {
+            self.stuck = true;
+            return Err(format!("VIOLATION:report() did not return within {deadline:?}"));
         }
         let dgrams = self.sink.drain()?;
         let mut sizes = Vec::new();
@@ -465,6 +477,13 @@ fn c19_batches(out_single: &[SpanRecord]) -> Vec<Vec<SpanRecord>> {
             }
         }
     }
+    // a record too large for one Jaeger datagram among normal ones, at the front, middle and end
+    let huge = "h".repeat(9000);
+    for pos in [0usize, 3, 6] {
+        let mut b: Vec<SpanRecord> = (0..6u64).map(|i| rec(0xB16, i + 1, i, NOW + i, 1_000, &format!("n{i}"), &[("i", "x")], &[])).collect();
+        b.insert(pos, rec(0xB16, 99, 0, NOW, 1_000, "huge", &[("payload", &huge)], &[]));
+        v.push(b);
+    }
     let large: Vec<SpanRecord> = (0..1000u64).map(|i| rec(0xABCD, i + 1, i, NOW + i, i * 1_000, &format!("span{i}"), &[("i", &i.to_string())], &[])).collect();
     v.push(large);
     v
@@ -517,7 +536,8 @@ fn run_c19(thorough: bool, out: &mut Out) {
                 None => out.machinery.push(format!("jaeger: {e}")),
             },
             Ok((sizes, spans)) => {
-                let want: Vec<JSpan> = input.iter().map(jaeger_image).collect();
+                // a record whose own encoding cannot fit a datagram is outside what the format can carry (C20)
+                let want: Vec<JSpan> = input.iter().filter(|r| r.properties.iter().map(|(k, v)| k.len() + v.len()).sum::<usize>() + r.name.len() < 7000).map(jaeger_image).collect();
                 out.classes.insert(format!("jaeger:{}dgrams:{}", sizes.len().min(3), input.len().min(4)));
                 if spans.len() != want.len() {
                     out.violation("count", "jaeger", input, format!("{} spans received for {} records", spans.len(), want.len()));
@@ -694,16 +714,19 @@ fn c20_check(j: &mut Jaeger, fits_alone: &mut BTreeMap<usize, bool>, input: &[Sp
     for r in input {
         let l = r.name.len();
         if !fits_alone.contains_key(&l) {
-            let fits = match j.send(&[r.clone()], Duration::from_secs(10)) {
+            let fits = match j.send(&[r.clone()], Duration::from_secs(5)) {
                 Ok((sizes, _)) => !sizes.is_empty(),
                 Err(_) => false,
             };
             fits_alone.insert(l, fits);
         }
     }
-    match j.send(input, Duration::from_secs(20)) {
+    if j.stuck {
+        return;
+    }
+    match j.send(input, Duration::from_secs(5)) {
         Err(e) => match e.strip_prefix("VIOLATION:") {
-            Some(v) => out.violation("malformed-or-slow", "jaeger", input, v.to_string()),
+            Some(v) => out.violation(if v.contains("did not return") { "report-does-not-return" } else { "malformed" }, "jaeger", input, v.to_string()),
             None => out.machinery.push(format!("jaeger: {e}")),
         },
         Ok((sizes, spans)) => {
